@@ -160,6 +160,7 @@ impl Buildpack for Vbp {
         }
         for f in self.script["bsbom"].as_array().cloned().unwrap_or_default() {
             let f = f.as_str().unwrap();
+            if std::env::var_os("VBP_DUP_SBOM").is_some() { b = b.build_sbom(Sbom::from_bytes(sbom_format(f), format!("{{\"another\":\"build {f}\"}}"))); }
             b = b.build_sbom(Sbom::from_bytes(sbom_format(f), format!("{{\"sbom\":\"build {f}\"}}")));
         }
         for f in self.script["lsbom"].as_array().cloned().unwrap_or_default() {
@@ -172,6 +173,7 @@ impl Buildpack for Vbp {
                 b = b.launch_sbom(Sbom::try_from(bom).expect("cyclonedx conversion"));
                 continue;
             }
+            if std::env::var_os("VBP_DUP_SBOM").is_some() { b = b.launch_sbom(Sbom::from_bytes(sbom_format(f), format!("{{\"another\":\"launch {f}\"}}"))); }
             b = b.launch_sbom(Sbom::from_bytes(sbom_format(f), format!("{{\"sbom\":\"launch {f}\"}}")));
         }
         b.build()
